@@ -488,7 +488,7 @@ def main():
     chk.bounds = {"cases": len(cases)}
     chk.merge(core.parallel(shard, core.interleave(cases, core.NPROC)))
     chk.assumptions += ["any exception counts as a refusal", "single-source data with a full covariance matrix is not fixed by the property (either outcome accepted)"]
-    return chk.finish()
+    return chk.finish(run_case)
 
 
 def replay(doc):
